@@ -442,3 +442,38 @@ func (g *G) AsmWorkload(id string, n int, unregistered bool) wl.Workload {
 	calls = append(calls, wl.Call{Op: "close"})
 	return wl.Workload{ID: id, Cfg: c, Calls: calls}
 }
+
+
+// BulkCalls draws a workload of about totalKiB KiB of message data in messages of 40-600 KiB, alternating between
+// highly compressible, text-like and incompressible payloads, on two channels, with an attachment in the middle.
+func (g *G) BulkCalls(totalKiB int) []wl.Call {
+	calls := []wl.Call{{Op: "header", Profile: []byte("bulk")},
+		{Op: "schema", ID: 1, Name: []byte("s"), Enc: []byte("e"), Data: []byte("d")},
+		{Op: "channel", ID: 1, Schema: 1, Topic: []byte("/big"), Menc: []byte("m")},
+		{Op: "channel", ID: 2, Topic: []byte("/other"), Menc: []byte("m")}}
+	left := totalKiB << 10
+	i := 0
+	for left > 0 {
+		n := (40 + g.R.Intn(560)) << 10
+		b := make([]byte, n)
+		switch i % 3 {
+		case 0: // long runs
+			for j := range b {
+				b[j] = byte(j >> 12)
+			}
+		case 1: // text-like: small alphabet with structure
+			for j := range b {
+				b[j] = "abcdefgh ijklmnop\n"[(j*7+g.R.Intn(3))%18]
+			}
+		default:
+			g.R.Read(b)
+		}
+		i++
+		calls = append(calls, wl.Call{Op: "message", Ch: uint16(1 + i%2), Seq: uint32(i), Log: uint64(1000 + i), Pub: uint64(i), Data: b})
+		if i == 3 {
+			calls = append(calls, wl.Call{Op: "attachment", Log: 5, Name: []byte("a"), Media: []byte("m"), Data: b[:n/2]})
+		}
+		left -= n
+	}
+	return append(calls, wl.Call{Op: "close"})
+}
